@@ -22,8 +22,14 @@ def run(ctx):
     binary = vlib.go_build(ctx, "dcids")
     infile = vlib.write_json(os.path.join(ctx.work, "behaviours.json"), beh)
     trace = os.path.join(ctx.work, "trace.ndjson")
-    vlib.go_run(ctx, binary, "TestVerifDcIds", infile, trace, timeout=2400)
+    # the driver may die (a change that opens a channel twice ends in a double close): what it recorded until then is judged
+    rc, out = vlib.go_run(ctx, binary, "TestVerifDcIds", infile, trace, timeout=2400, allow_fail=True)
+    ctx.cov["driver_exit"] = rc
+    if not os.path.exists(trace) or os.path.getsize(trace) == 0:
+        raise vlib.NoVerdict("driver TestVerifDcIds failed rc=%d:\n%s" % (rc, out[-3000:]))
     ctx.viol = vlib.tlc_trace(ctx, "DcIds_Trace", "DcIds_Trace", trace)
+    if rc != 0 and not [v for v in ctx.viol if v.get("prop") == "C18"]:
+        raise vlib.NoVerdict("driver TestVerifDcIds failed rc=%d and nothing it recorded violates a predicate:\n%s" % (rc, out[-3000:]))
     pr = ctx.cov["predicates"]
     if not pr.get("Parity") or not pr.get("UniqueAssigned"):
         raise vlib.NoVerdict("predicates not exercised: %s" % pr)
